@@ -12,7 +12,7 @@ import (
 )
 
 func init() {
-	register("C09", "Structural clauses of the walk contract: the protocol's path comparison is evaluated under every one of the 13 weak orderings of (byte of p1, byte of p2, separator) and must put the separator lowest and otherwise follow byte order, with the length difference as the tail (finite-ordering evaluation of the SSA branch conditions, exhaustive); the root is never reported; stats are built truthfully by one constructor from lstat-based sources (shared with C01); the inode map is per walk and link names come only from a hit under Nlink>1; sub-root walks prefix path, non-symlink link names and the reported path; the walker's root is the checked result of filepath.EvalSymlinks, tested to be a directory; enumeration is delegated to filepath.WalkDir on root+target. Does not decide 'every entry exactly once' or directory-before-contents (contract of filepath.WalkDir, trusted).", runC09)
+	register("C09", "Structural clauses of the walk contract: the protocol's path comparison is evaluated under every one of the 13 weak orderings of (byte of p1, byte of p2, separator) and must put the separator lowest and otherwise follow byte order, with the length difference as the tail (finite-ordering evaluation of the SSA branch conditions, exhaustive); the root is never reported; stats are built truthfully by one constructor from lstat-based sources (shared with C01); the inode map is per walk and link names come only from a hit under Nlink>1; sub-root walks prefix path, non-symlink link names and the reported path; the walker's root is the checked result of filepath.EvalSymlinks, tested to be a directory; enumeration is delegated to filepath.WalkDir on root+target. Extended attributes are listed for every kind of entry (loadXattr cannot succeed without llistxattr, mkstat not without loadXattr). Does not decide 'every entry exactly once' or directory-before-contents (contract of filepath.WalkDir, trusted).", runC09)
 	register("C12", "Structural clauses of the stream validator: a fatal test exists for every lexical rejection class (unclean, absolute, '.', '..', '../' prefix), the last-child comparison rejects the orderings equal and greater and accepts less, a foreign parent is rejected, directory levels are opened only for non-delete directories, and the path comparison is the separator-lowest byte order under all 13 weak orderings of its atoms (exhaustive finite-ordering evaluation). Does not decide the 'if and only if' for all sequences nor the binary search over the open-directory stack.", runC12)
 }
 
@@ -25,6 +25,9 @@ func runC09(c *Ctx) {
 	r09_6(c, "R09.6")
 	r09_7(c, "R09.7")
 	r09_8(c, "R09.8")
+	if c.Unix() {
+		r09_9(c, "R09.9")
+	}
 }
 
 func runC12(c *Ctx) {
@@ -661,4 +664,23 @@ func r09_8(c *Ctx, rule string) {
 		hit, und := c.SuccessAvoiding(nf, nil, as, nil, nil)
 		c.R.Check(!und && hit == nil, rule, c.name(nf)+"/directory-test", c.P.Pos(nf.Pos()), "a root that is not a directory is an error", "NewFS succeeds although the root is not a directory")
 	}
+}
+
+// R09.9: extended attributes are listed for every kind of entry.
+//
+// trusted.* and security.* attributes are legal on symlinks, fifos, devices
+// and sockets; "true stats" means llistxattr of the entry, whatever it is.
+// loadXattr therefore has no way to succeed without having listed them, and
+// mkstat no way to succeed without loadXattr.
+func r09_9(c *Ctx, rule string) {
+	c.R.Rule(rule, "every success return of loadXattr is preceded by the LListxattr of the path, and every success return of mkstat by a checked loadXattr: no entry type is exempt")
+	lx := c.Fn(rule, "fsutil.loadXattr")
+	mk := c.Fn(rule, "fsutil.mkstat")
+	if lx == nil || mk == nil {
+		return
+	}
+	list := c.callPred("github.com/containerd/continuity/sysx.LListxattr")
+	c.R.Floor(rule, "LListxattr calls in loadXattr", len(c.P.CallsTo(lx, "github.com/containerd/continuity/sysx.LListxattr")), 1)
+	c.ObSuccessNeeds(rule, c.name(lx)+"/success-needs-list", lx, nil, nil, list, "listing the entry's extended attributes")
+	c.ObSuccessNeeds(rule, c.name(mk)+"/success-needs-xattrs", mk, nil, nil, c.checkedCallPred("fsutil.loadXattr"), "a checked loadXattr")
 }
